@@ -32,6 +32,7 @@ import (
 	"github.com/icon-project/goloop/module"
 	"github.com/icon-project/goloop/service"
 	"github.com/icon-project/goloop/service/contract"
+	"github.com/icon-project/goloop/service/eeproxy"
 	"github.com/icon-project/goloop/service/platform/basic"
 	"github.com/icon-project/goloop/service/scoreapi"
 	"github.com/icon-project/goloop/service/scoreresult"
@@ -65,6 +66,8 @@ type feeCfg struct {
 	// pre-execution balance check looks at the balance at block start). It makes the
 	// "cannot pay the fee after execution -> roll back, OutOfBalance" branch reachable.
 	LegacyBalance bool
+	// TimeoutMs > 0: the chain's transaction timeout; such worlds may contain hang operations
+	TimeoutMs int
 }
 
 func (c *feeCfg) String() string {
@@ -72,8 +75,8 @@ func (c *feeCfg) String() string {
 	for _, k := range feeCostKeys {
 		cs = append(cs, fmt.Sprintf("%s=%d", k, c.Costs[k]))
 	}
-	return fmt.Sprintf("rev=%d price=%s costs{%s} eoa=%v prog=%v(sync %d) treasuryAlt=%v treasury0=%s govEOA=%v btp=%v legacyBalanceCheck=%v",
-		c.Revision, c.StepPrice, strings.Join(cs, ","), c.Balances, c.ProgBal, c.NSync, c.TreasuryAlt, c.TreasuryBal, c.GovEOA, c.BTP, c.LegacyBalance)
+	return fmt.Sprintf("rev=%d price=%s costs{%s} eoa=%v prog=%v(sync %d) treasuryAlt=%v treasury0=%s govEOA=%v btp=%v legacyBalanceCheck=%v txTimeoutMs=%d",
+		c.Revision, c.StepPrice, strings.Join(cs, ","), c.Balances, c.ProgBal, c.NSync, c.TreasuryAlt, c.TreasuryBal, c.GovEOA, c.BTP, c.LegacyBalance, c.TimeoutMs)
 }
 
 var feeCostKeys = []string{"default", "input", "contractCall", "set", "replace", "delete", "eventLog", "get"}
@@ -98,11 +101,18 @@ func (p *feePlatform) ToRevision(v int) module.Revision { return p.Platform.ToRe
 
 type feeChain struct {
 	*test.Chain
+	timeout time.Duration
 }
 
-// no wall-clock dependent failures: system SCORE calls wait for their result with this timeout
-func (c *feeChain) TransactionTimeout() time.Duration { return time.Hour }
-func (c *feeChain) ConcurrencyLevel() int             { return 1 }
+// no wall-clock dependent failures: system SCORE calls wait for their result with this timeout.
+// Worlds that may run a "hang" operation (an asynchronous callee that never answers) use a short one.
+func (c *feeChain) TransactionTimeout() time.Duration {
+	if c.timeout > 0 {
+		return c.timeout
+	}
+	return time.Hour
+}
+func (c *feeChain) ConcurrencyLevel() int { return 1 }
 
 // ---------------------------------------------------------------------------------------------
 // programs
@@ -117,6 +127,7 @@ const (
 	feeOpCall  // nested call of a sub-program on a programmable contract
 	feeOpSysCall
 	feeOpFlag // disable/enable another programmable contract through the chain SCORE (owner only)
+	feeOpHang // call of an asynchronous callee that writes a value and never answers: the transaction times out
 )
 
 const (
@@ -199,6 +210,8 @@ func (p *feeProg) render(sb *strings.Builder) {
 			fmt.Fprintf(sb, "syscall(prop=%v)", o.Propagate)
 		case feeOpFlag:
 			fmt.Fprintf(sb, "flag(%s,disable=%v,prop=%v)", feeShort(o.To), o.Disable, o.Propagate)
+		case feeOpHang:
+			fmt.Fprintf(sb, "hang(k%d,%x)", o.Key, o.Val)
 		}
 	}
 	fmt.Fprintf(sb, "]->%s", feeEndNames[p.End])
@@ -411,6 +424,35 @@ func (h *feeHandler) ExecuteSync(cc contract.CallContext) (error, *codec.TypedOb
 	return feeRunFrame(h.w, cc, h.id, h.from, h.to, h.value, h.prog, false), nil, nil
 }
 
+// feeHangHandler is an asynchronous contract handler (the kind an execution engine proxy is): it mutates
+// the callee's storage, emits an event and then never calls OnResult.
+type feeHangHandler struct {
+	eeproxy.CallContext // the engine-side callbacks are never used
+	to                  module.Address
+	key, val            []byte
+	log                 *trace.Logger
+}
+
+func (h *feeHangHandler) Prepare(ctx contract.Context) (state.WorldContext, error) {
+	lq := []state.LockRequest{{Lock: state.AccountWriteLock, ID: state.WorldIDStr}}
+	return ctx.GetFuture(lq), nil
+}
+func (h *feeHangHandler) SetTraceLogger(logger *trace.Logger) { h.log = logger }
+func (h *feeHangHandler) TraceLogger() *trace.Logger          { return h.log }
+func (h *feeHangHandler) ExecuteAsync(cc contract.CallContext) error {
+	as := cc.GetAccountState(h.to.ID())
+	if _, err := as.SetValue(h.key, h.val); err != nil {
+		return err
+	}
+	cc.OnEvent(h.to, [][]byte{feeEventSig, h.val}, nil)
+	return nil
+}
+func (h *feeHangHandler) SendResult(status error, steps *big.Int, result *codec.TypedObj) error {
+	return nil
+}
+func (h *feeHangHandler) Dispose()             {}
+func (h *feeHangHandler) EEType() state.EEType { return state.NullEE }
+
 var feeEventSig = []byte("HarnessEvent(bytes)")
 
 var feeErrUserRevert = errors.NewBase(scoreresult.RevertedError+7, "UserRevert")
@@ -579,6 +621,11 @@ func feeInterp(w *feeWorld, tr *feeTrace, cc contract.CallContext, from, self mo
 				}
 			}
 			st, used, _, _ := cc.Call(ch, limit)
+			if errors.CodeOf(st) == scoreresult.TimeoutError {
+				// nothing runs on after the transaction timed out (a real engine has been killed by now)
+				cc.DeductSteps(used)
+				return st
+			}
 			if !cc.DeductSteps(used) {
 				return scoreresult.ErrOutOfStep
 			}
@@ -606,6 +653,16 @@ func feeInterp(w *feeWorld, tr *feeTrace, cc contract.CallContext, from, self mo
 			if st != nil && o.Propagate {
 				return st
 			}
+		case feeOpHang:
+			// an asynchronous callee changes state and never reports back: goloop's call context waits for the
+			// transaction timeout and fails the whole transaction (clean-up of every open frame)
+			ch := &feeHangHandler{to: self, key: feeKey(o.Key), val: o.Val, log: trace.LoggerOf(w.logger)}
+			st, used, _, _ := cc.Call(ch, cc.StepAvailable())
+			cc.DeductSteps(used)
+			if st == nil {
+				st = scoreresult.ErrUnknownFailure // cannot happen: nobody answered
+			}
+			return st
 		case feeOpSysCall:
 			// a call into the real chain SCORE that is denied (not governance): charged, fails
 			data := []byte(`{"method":"setStepPrice","params":{"price":"0x1"}}`)
@@ -855,7 +912,7 @@ func feeNewWorld(cfg feeCfg, tmpDir string) (*feeWorld, error) {
 	if err != nil {
 		return nil, err
 	}
-	w.chain = &feeChain{tc}
+	w.chain = &feeChain{Chain: tc, timeout: time.Duration(cfg.TimeoutMs) * time.Millisecond}
 	rcm, err := w.plt.NewContractManager(w.db, tmpDir, logger)
 	if err != nil {
 		return nil, err
